@@ -105,6 +105,42 @@ func NewLocksetV(p *ir.Prog, mutex *types.Var, methods []*ir.Func, viewOf func(*
 						}
 					}
 				}
+				// methods taken as values at this node (`step := m.applyStep`): like a literal defined here, the value
+				// is taken to be invoked within the same critical section
+				called := map[ast.Expr]bool{}
+				ir.Walk(n.AST, false, func(x ast.Node) {
+					if ce, ok := x.(*ast.CallExpr); ok {
+						called[ast.Unparen(ce.Fun)] = true
+					}
+				})
+				ir.Walk(n.AST, false, func(x ast.Node) {
+					sel, ok := x.(*ast.SelectorExpr)
+					if !ok || called[sel] {
+						return
+					}
+					fn, isFn := f.Info().Uses[sel.Sel].(*types.Func)
+					if !isFn {
+						return
+					}
+					callee := l.P.FuncOf(fn.Origin())
+					if callee != nil && l.viewOf != nil {
+						callee = l.viewOf(callee)
+					}
+					if callee == nil || !l.has(callee) || (callee.Lit == nil && exported(callee)) {
+						return
+					}
+					v := cur
+					if isGo {
+						v = lsUnheld
+					}
+					if _, isRet := n.AST.(*ast.ReturnStmt); isRet {
+						v = lsUnheld
+					}
+					if nv := l.entry[callee] | v; nv != l.entry[callee] {
+						l.entry[callee] = nv
+						changed = true
+					}
+				})
 				// literals defined at this node
 				ir.Walk(n.AST, false, func(x ast.Node) {
 					lit, ok := x.(*ast.FuncLit)
